@@ -2583,6 +2583,14 @@ class const_subarray<T, 0, ElementPtr, Layout>
 	}
 	constexpr auto operator!=(element const& elem) const {return ! operator==(elem);}
 
+	// element on the left.  Without these `elem == ref` is ambiguous between the element's own operator== (reached through the
+	// conversion of the reference to an element) and array_ref's (reached through array_ref<T, 0>'s implicit constructor from an
+	// element).  Templates on the exact types of both sides: they apply to an element and a rank-0 array or reference, to nothing else.
+	template<class Elem, class Self, std::enable_if_t<std::is_same_v<Elem, element> && std::is_base_of_v<const_subarray, Self>, int> =0>  // NOLINT(modernize-use-constraints) for C++20
+	friend constexpr auto operator==(Elem const& elem, Self const& self) -> bool {return static_cast<const_subarray const&>(self).operator==(elem);}
+	template<class Elem, class Self, std::enable_if_t<std::is_same_v<Elem, element> && std::is_base_of_v<const_subarray, Self>, int> =0>  // NOLINT(modernize-use-constraints) for C++20
+	friend constexpr auto operator!=(Elem const& elem, Self const& self) -> bool {return static_cast<const_subarray const&>(self).operator!=(elem);}
+
 	template<class Range0>
 	constexpr
 	auto operator=(Range0 const& rng) & -> const_subarray& {
